@@ -20,7 +20,7 @@ func init() {
 var profC05 = Profile{
 	MaxBars: 7, MaxSteps: 40, Refresh: []string{"manual", "manual", "manual", "autoinj"}, QLens: []int{-1, -1, -3, -4, 128},
 	Pop: 30, Queue: 25, Prio: true, Ext: 20, Text: 1, Rm: 25, NoPop: 20, AbortW: 2, TicksW: 8, Notifier: 100,
-	Fillers: []string{"bar", "tag", "nop", "spinner"}, LateAdd: true, Cancel: 15,
+	Fillers: []string{"bar", "tag", "nop", "spinner"}, LateAdd: true, Cancel: 15, Pty: 20, PtyRowsMax: 8, Faults: 12,
 }
 
 func genC05(t *rapid.T) interface{} {
@@ -81,6 +81,20 @@ func runC05(ci interface{}) Result {
 		r.Classes = append(r.Classes, "pop")
 	}
 	// history invariants (every regime): no bar twice in a frame; presence 0*1+0*
+	// when the rows of all bars may not fit the height, bars are legitimately cut
+	// off at the top and come back later: only the exact model judges those runs
+	height := 80
+	if sc.Cfg.Width > 0 {
+		height = sc.Cfg.Width
+	}
+	if sc.Cfg.PtyRows > 0 {
+		height = sc.Cfg.PtyRows
+	}
+	allRows := 0
+	for _, b := range sc.Bars {
+		allRows += 1 + b.ExtRows
+	}
+	mayClip := allRows > height
 	first, last := map[int]int{}, map[int]int{}
 	changes := 0
 	var prevSet string
@@ -94,7 +108,7 @@ func runC05(ci interface{}) Result {
 			}
 			if _, ok := first[b]; !ok {
 				first[b] = k
-			} else if last[b] != k-1 {
+			} else if last[b] != k-1 && !mayClip {
 				r.Err, r.Kind = fmt.Errorf("bar %d vanished after frame %d and is back in frame %d", b, last[b], k), "vanish"
 				return r
 			}
@@ -111,6 +125,12 @@ func runC05(ci interface{}) Result {
 		return r
 	}
 	exact := sim.OK && (sc.Cfg.QueueLen < 0 || sc.Cfg.QueueLen >= len(sc.Bars)+1) && sc.Cfg.Width == 0
+	if sim.OK && sim.Clipped {
+		r.Classes = append(r.Classes, "clipped")
+	}
+	if sim.OK && sim.Errored {
+		r.Classes = append(r.Classes, "render-fault")
+	}
 	if exact {
 		r.Classes = append(r.Classes, "exact-model")
 		if len(frames) != len(sim.Frames) {
@@ -123,8 +143,25 @@ func runC05(ci interface{}) Result {
 				got[b] = true
 			}
 			want := map[int]bool{}
-			for _, b := range sim.Frames[k].Order {
+			for _, b := range sim.Frames[k].Visible {
 				want[b] = true
+			}
+			if sim.Frames[k].Ambiguous {
+				// which of several equal-priority bars is cut off is unspecified
+				inHeap := map[int]bool{}
+				for _, b := range sim.Frames[k].Order {
+					inHeap[b] = true
+				}
+				for b := range got {
+					if !inHeap[b] {
+						r.Err, r.Kind = fmt.Errorf("frame %d shows bar %d which is not in the container (model: %v)", k, b, sim.Frames[k].Order), "membership"
+						return r
+					}
+				}
+				if len(got) != len(want) && sc.Bars != nil {
+					// the number of visible bars can differ too when groups have different heights
+				}
+				continue
 			}
 			if fmt.Sprint(sortedInts(got)) != fmt.Sprint(sortedInts(want)) {
 				r.Err, r.Kind = fmt.Errorf("frame %d shows bars %v, model expects %v (frame %q)", k, sortedInts(got), sortedInts(want), f.Raw), "membership"
